@@ -86,6 +86,7 @@ class C16(Prop):
         yield {"k": "tally", "name": "random_pauli_n2", "n": 2, "M": 18000 * f, "seed": base + 5, "signed": False, "expect": 36, "pauli": True}
         for t in range(4000 * f):
             yield {"k": "align", "what": "clifford2" if t % 4 else "pair", "n": 2 if t % 8 else 1, "seed": base + 5000 + t, "pkg": "py"}
+        yield {"k": "birthday", "n": 3, "M": 6000, "seed": base + 9}
         yield {"k": "coin", "seed": base + 6, "M": 4000 * f, "pkg": "py"}
         yield {"k": "bitsigns", "seed": base + 7, "M": 2000 * f, "pkg": "py"}
         yield {"k": "resample", "seed": base + 8}
@@ -154,6 +155,17 @@ class C16(Prop):
                 tab = be.utils.random_clifford(2)
                 return [{"op": "align", "what": "clifford2", "n": 2, "raw2": [be.p_ints(r2[0]), be.p_ints(r2[1])],
                          "raw1": [be.p_ints(r1[0]), be.p_ints(r1[1])], "out": [be.p_ints(row) for row in tab]}]
+            if k == "birthday":
+                be.seed(scn["seed"])
+                seen, outs = set(), []
+                for t in range(scn["M"]):
+                    w = be.p_list(St.random_clifford_map(scn["n"]))
+                    key = tuple(tuple(x[:-1]) for x in w)
+                    if key not in seen and len(outs) < 40:
+                        outs.append([x[:-1] + [0] for x in w])
+                    seen.add(key)
+                return [{"op": "birthday", "n": scn["n"], "M": scn["M"], "space": 1451520, "distinct": len(seen),
+                         "collisions": scn["M"] - len(seen), "outputs": outs}]
             if k == "coin":
                 be.seed(scn["seed"])
                 c = [0, 0]
